@@ -63,18 +63,12 @@ def implications(fn_node, fm):
     return out
 
 
-def run(P, R):
-    AS = P.cls('ApplicationStatus')
+def rule_ast_access(P, R, r1):
+    """every access on the parsed formula in ApplicationStatus.evaluate is justified by a dominating type fact (shared
+    with C16: an AttributeError / IndexError raised there escapes through every handler that updates an application)."""
     ev = P.unit('ApplicationStatus.evaluate')
     FIELDS = asdl_fields()
     EXPRS = concrete(ast.expr)
-    R.stats['asdl'] = {'node_classes': len(FIELDS), 'expr_classes': len(EXPRS)}
-
-    # ---------------------------------------------------------------- R1
-    r1 = R.rule('R1', 'typed-AST access check', 'in ApplicationStatus.evaluate every attribute read or index on an '
-                'expression rooted at the `node` parameter is justified by a dominating type(e) is ast.T / isinstance '
-                'fact (ASDL signatures of the running interpreter give fields, types and arity): a field read needs all '
-                'classes e may still be to own that field; an index on a * field needs a length fact', 8)
     param = ev.node.args.args[1].arg
     fm = factmap(ev)
     imp = implications(ev.node, fm)
@@ -159,6 +153,22 @@ def run(P, R):
                'access `%s` justified' % ast.unparse(e))
     R.require(n_access >= 8, 'only %d accesses rooted at the node parameter found in evaluate' % n_access)
 
+
+def run(P, R):
+    AS = P.cls('ApplicationStatus')
+    ev = P.unit('ApplicationStatus.evaluate')
+    FIELDS = asdl_fields()
+    EXPRS = concrete(ast.expr)
+    R.stats['asdl'] = {'node_classes': len(FIELDS), 'expr_classes': len(EXPRS)}
+
+    # ---------------------------------------------------------------- R1
+    r1 = R.rule('R1', 'typed-AST access check', 'in ApplicationStatus.evaluate every attribute read or index on an '
+                'expression rooted at the `node` parameter is justified by a dominating type(e) is ast.T / isinstance '
+                'fact (ASDL signatures of the running interpreter give fields, types and arity): a field read needs all '
+                'classes e may still be to own that field; an index on a * field needs a length fact', 8)
+    rule_ast_access(P, R, r1)
+    fm = factmap(ev)
+
     # ---------------------------------------------------------------- R2
     r2 = R.rule('R2', 'dominance', 'a stored formula is a single expression: every write of _status_tree is dominated by '
                 'the refusal of len(tree.body) != 1 and of a statement that is not an ast.Expr (status_tree dereferences '
@@ -233,9 +243,28 @@ def run(P, R):
                     len(c.args) > 1 and not isinstance(c.args[1], ast.Constant):
                 sinks.append((u, c))
     ok = len(sinks) == 1 and sinks[0][0] is ev and call_text(sinks[0][1]) == 'eval'
-    R.check(r4, ok, 'one eval(), in evaluate(), is the only dynamic sink', 'sink|unique', ev.loc(),
-            'dynamic execution sinks reachable from update(): %s' % ['%s:%s' % (u.qual, ast.unparse(c)[:50])
-                                                                     for u, c in sinks])
+    R.check(r4, ok or not sinks, 'one eval(), in evaluate(), is the only dynamic sink (or there is none)', 'sink|unique',
+            ev.loc(), 'dynamic execution sinks reachable from update(): %s' %
+            ['%s:%s' % (u.qual, ast.unparse(c)[:50]) for u, c in sinks])
+    if not sinks:
+        # no dynamic execution at all: the functions of a formula are applied by direct calls of the builtins, each
+        # under the fact that the formula names that very builtin (on an ast.Name)
+        direct = [c for c in own_nodes(ev.node) if isinstance(c, ast.Call) and isinstance(c.func, ast.Name)
+                  and c.func.id in ('all', 'any') and fm.has(c, 'type(node) is ast.Call', True)]
+        names = {c.func.id for c in direct}
+        okd = names == {'all', 'any'} and all(fm.has(c, "node.func.id == '%s'" % c.func.id, True) and
+                                               fm.has(c, 'type(node.func) is ast.Name', True) for c in direct)
+        R.check(r4, okd, 'all / any are applied by direct calls under the name written in the formula', 'sink|shape',
+                ev.loc(), 'evaluate() applies the builtins %s without the facts `node.func.id == <that name>` on an '
+                'ast.Name' % sorted(names))
+        R.check(r4, okd, 'no other function can be named by a formula', 'sink|whitelist', ev.loc(),
+                'evaluate() applies a function outside [all, any]')
+        okv = bool(direct) and all(len(c.args) == 1 and isinstance(c.args[0], ast.Name) and all(
+            ast.unparse(a.value) in ('self.evaluate(node.args[0])', '[%s]' % c.args[0].id)
+            for a in own_nodes(ev.node) if isinstance(a, ast.Assign) and ast.unparse(a.targets[0]) == c.args[0].id
+            and fm.has(a, 'type(node) is ast.Call', True)) for c in direct)
+        R.check(r4, okv, 'the function is applied to the evaluation of the single argument', 'sink|value', ev.loc(),
+                'all / any are not applied to the evaluation of node.args[0]')
     if ok:
         c = sinks[0][1]
         arg = c.args[0]
@@ -257,6 +286,13 @@ def run(P, R):
                                       for a in vdefs)
             R.check(r4, okv, 'the interpolated value is the evaluation of the single argument', 'sink|value', ev.loc(c),
                     'eval() interpolates `%s` defined by %s' % (ast.unparse(v), [ast.unparse(a.value) for a in vdefs]))
+    # a function of a formula takes ONE argument: anything else is refused, not truncated to the first one
+    one = [c for c in own_nodes(ev.node) if isinstance(c, ast.Call) and call_text(c) == 'self.evaluate'
+           and ast.unparse(c.args[0]) == 'node.args[0]']
+    ok1 = bool(one) and all(fm.has(c, 'len(node.args) == 1', True) and fm.has(c, 'node.keywords', False) for c in one)
+    R.check(r4, ok1, 'all / any are evaluated on exactly one positional argument', 'sink|arity', ev.loc(),
+            'evaluate() evaluates node.args[0] without the facts `len(node.args) == 1` and `not node.keywords`: a formula '
+            'such as all(a, b) is evaluated on its first argument instead of being refused (major failure)')
     # producers are boolean
     def boolean_expr(e):
         if isinstance(e, (ast.Compare,)):
@@ -302,11 +338,18 @@ def run(P, R):
     want = {'running': [('process.displayed_state == ProcessStates.RUNNING', True)],
             'starting': [('process.displayed_state in [ProcessStates.STARTING, ProcessStates.BACKOFF]', True)],
             'stopping': [('process.displayed_state == ProcessStates.STOPPING', True)]}
+    want_stopping_early = list(want['stopping'])
+    loops = [l for l in us.node.body if isinstance(l, ast.For)]
+    # the top priority may be decided inside the loop: `if <displayed STOPPING>: return STOPPING` needs no flag
+    early = [n for v, facts, n in returns(us) if v is not None and ast.unparse(v).split('.')[-1] == 'STOPPING'
+             and len(loops) == 1 and any(x is n for x in ast.walk(loops[0]))
+             and [tuple(f) for f in facts] == want['stopping']]
+    if early and 'stopping' not in flags:
+        del want['stopping']
     for k, w in want.items():
         R.check(r5, flags.get(k) == w, 'flag %s <=> some process displayed %s' % (k, w[0][0].split('ProcessStates.', 1)[1]),
                 'priority|flag|%s' % k, us.loc(), 'update_state sets `%s` under %s (expected %s on the displayed state)' %
                 (k, flags.get(k), w))
-    loops = [l for l in us.node.body if isinstance(l, ast.For)]
     R.check(r5, len(loops) == 1 and ast.unparse(loops[0].iter) == 'self.processes.values()',
             'every process of the application is considered', 'priority|scope', us.loc(),
             'update_state does not iterate self.processes.values()')
@@ -314,6 +357,8 @@ def run(P, R):
     wantr = [('STOPPING', [('stopping', True)]), ('STARTING', [('starting', True), ('stopping', False)]),
              ('RUNNING', [('running', True), ('starting', False), ('stopping', False)]),
              ('STOPPED', [('running', False), ('starting', False), ('stopping', False)])]
+    if 'stopping' not in want:
+        wantr = [('STOPPING', want_stopping_early)] + [(k, [f for f in w if f[0] != 'stopping']) for k, w in wantr[1:]]
     for k, w in wantr:
         got = [f for kk, f in rs if kk == k]
         R.check(r5, got == [w], '%s is reported under %s' % (k, w), 'priority|return|%s' % k, us.loc(),
